@@ -332,6 +332,7 @@ func checkC10(c *ev.Ctx) {
 		j := jobs[ji]
 		s := j.s
 		id := fmt.Sprintf("%s|%s", s.ID, j.inj)
+		noteCase(id)
 		if !want(c, id) {
 			return
 		}
